@@ -160,6 +160,11 @@ def run(ctx):
             except Exception as e:  # constructing the value itself failed: not this property's business
                 ctx.count("construct_error:" + type(e).__name__)
                 continue
+            # the property as the FIRST thing observed on this object (the previous object may have failed half-way through
+            # bytes(): whatever a failed call leaves behind must not leak into the next one - seeded change C09-6)
+            probs0 = property_problems(m)
+            if probs0 and not any(f["kind"] == "oracle" and f["what"] == "first observation: " + probs0[0] for f in ctx.failures):
+                ctx.fail("oracle", "first observation: " + probs0[0], cls=None, all_problems=probs0, input=failing_input(s, m, tree))
             # observables of the property, on the real object (snapshot was taken first: bytes()/len() materialise defaults)
             exp_len = outcome(lambda: len(m), cz)
             exp_bytes = outcome(lambda: bytes(m), cb)
